@@ -77,27 +77,95 @@ pub fn field<'a>(case: &'a str, key: &str) -> &'a str {
 }
 
 /// A byte buffer whose start address is `off` modulo 16.
+///
+/// Placement is chosen by the environment variable `PVH_GUARD` (read once):
+///  * unset / `none`: heap storage;
+///  * `end`:   an `mmap`ed region whose following page is `PROT_NONE`; the buffer ends as close to that
+///             page as the requested alignment class allows (exactly flush when `(off + len) % 16 == 0`);
+///  * `start`: the preceding page is `PROT_NONE` and the buffer starts `off` bytes after it.
+/// A read outside the buffer then faults (SIGSEGV) instead of silently reading heap slack.
 pub struct Aligned {
 	store: Vec<u128>,
-	off: usize,
+	map: *mut u8,
+	map_len: usize,
+	ptr: *const u8,
 	len: usize,
+}
+pub fn guard_mode() -> u8 {
+	static MODE: std::sync::atomic::AtomicU8 = std::sync::atomic::AtomicU8::new(255);
+	let m = MODE.load(std::sync::atomic::Ordering::Relaxed);
+	if m != 255 {
+		return m;
+	}
+	let v = match std::env::var("PVH_GUARD").ok().as_deref() {
+		Some("end") => 1,
+		Some("start") => 2,
+		_ => 0,
+	};
+	MODE.store(v, std::sync::atomic::Ordering::Relaxed);
+	v
 }
 impl Aligned {
 	pub fn new(bytes: &[u8], off: usize) -> Aligned {
-		let mut store = vec![0u128; (bytes.len() + off + 31) / 16 + 1];
-		let p = store.as_mut_ptr() as *mut u8;
-		unsafe { std::ptr::copy_nonoverlapping(bytes.as_ptr(), p.add(off), bytes.len()) };
-		Aligned { store, off, len: bytes.len() }
+		let off = off % 16;
+		let mode = guard_mode();
+		if mode == 0 {
+			let mut store = vec![0u128; (bytes.len() + off + 31) / 16 + 1];
+			let p = store.as_mut_ptr() as *mut u8;
+			unsafe { std::ptr::copy_nonoverlapping(bytes.as_ptr(), p.add(off), bytes.len()) };
+			let ptr = unsafe { (store.as_ptr() as *const u8).add(off) };
+			return Aligned { store, map: std::ptr::null_mut(), map_len: 0, ptr, len: bytes.len() };
+		}
+		const PAGE: usize = 4096;
+		let data_pages = (bytes.len() + 16 + PAGE - 1) / PAGE + 1;
+		let map_len = (data_pages + 2) * PAGE;
+		unsafe {
+			let map = libc::mmap(std::ptr::null_mut(), map_len, libc::PROT_READ | libc::PROT_WRITE, libc::MAP_PRIVATE | libc::MAP_ANONYMOUS, -1, 0) as *mut u8;
+			assert!(map as isize != -1, "harness: mmap failed");
+			let data_start = map as usize + PAGE;
+			let data_end = data_start + data_pages * PAGE;
+			let start = if mode == 1 {
+				let s = data_end - bytes.len();
+				s - ((s + 16 - off) % 16)
+			}
+			else {
+				data_start + off
+			};
+			std::ptr::copy_nonoverlapping(bytes.as_ptr(), start as *mut u8, bytes.len());
+			libc::mprotect(map as *mut libc::c_void, PAGE, libc::PROT_NONE);
+			libc::mprotect((data_end) as *mut libc::c_void, PAGE, libc::PROT_NONE);
+			Aligned { store: Vec::new(), map, map_len, ptr: start as *const u8, len: bytes.len() }
+		}
 	}
 	pub fn bytes(&self) -> &[u8] {
-		unsafe { std::slice::from_raw_parts((self.store.as_ptr() as *const u8).add(self.off), self.len) }
+		let _ = &self.store;
+		unsafe { std::slice::from_raw_parts(self.ptr, self.len) }
 	}
 }
+impl Drop for Aligned {
+	fn drop(&mut self) {
+		if !self.map.is_null() {
+			unsafe { libc::munmap(self.map as *mut libc::c_void, self.map_len) };
+		}
+	}
+}
+
+/// message and location of a caught panic (the location is recorded by the hook installed in harness_main)
+pub fn panic_text(e: Box<dyn std::any::Any + Send>) -> String {
+	let msg = if let Some(s) = e.downcast_ref::<String>() { s.clone() } else if let Some(s) = e.downcast_ref::<&str>() { s.to_string() } else { "?".to_string() };
+	let at = LAST_PANIC_AT.with(|c| c.borrow().clone());
+	format!("{} @{}", msg.replace('\n', " "), at)
+}
+thread_local! { static LAST_PANIC_AT: std::cell::RefCell<String> = std::cell::RefCell::new(String::new()); }
 
 /// Runs the harness protocol. `gen(rng, index)` yields "kind k=v ..."; `run(case)` yields the observation.
 pub fn harness_main(gen: fn(&mut Rng, u64) -> String, run: fn(&str) -> String) {
 	let args: Vec<String> = std::env::args().collect();
-	panic::set_hook(Box::new(|_| {}));
+	panic::set_hook(Box::new(|info| {
+		if let Some(l) = info.location() {
+			LAST_PANIC_AT.with(|c| *c.borrow_mut() = format!("{}:{}", l.file().rsplit("/src/").next().unwrap_or(l.file()), l.line()));
+		}
+	}));
 	let out = std::io::stdout();
 	let budget: u32 = std::env::var("PVH_CASE_SECONDS").ok().and_then(|s| s.parse().ok()).unwrap_or(10);
 	let exec = |id: &str, case: &str| {
@@ -113,8 +181,7 @@ pub fn harness_main(gen: fn(&mut Rng, u64) -> String, run: fn(&str) -> String) {
 		let obs = match r {
 			Ok(s) => s,
 			Err(e) => {
-				let msg = if let Some(s) = e.downcast_ref::<String>() { s.clone() } else if let Some(s) = e.downcast_ref::<&str>() { s.to_string() } else { "?".to_string() };
-				format!("!panic {}", msg.replace('\n', " "))
+				format!("!panic {}", panic_text(e))
 			},
 		};
 		let mut o = out.lock();
